@@ -2,6 +2,7 @@ import Sop.Lemmas.Commit
 import Sop.Lemmas.CommitWitness
 import Sop.Lemmas.CommitPhase1
 import Sop.Lemmas.CommitSuccess
+import Sop.Lemmas.CommitPhase2After
 /-!
 # C10 — no live item or node ever refers to deleted or partially written data
 
@@ -68,6 +69,26 @@ theorem C10_committed_nodes_load (s0 : State) (w : WS) (fresh0 : List (UUID × U
         r2.s.view lid = s0.view lid) := by
   obtain ⟨r1, a, _, c, d⟩ := commit_ok_installs pre pre2 fault tid n r2 hok
   exact ⟨r1, a, fun h hm hz => by rw [c h hm hz]; rfl, d⟩
+
+/-- **A commit that returns an error — wherever it failed, under every fault — leaves every node loadable as
+before**: phase 1, live rollback, phase 2's log write, the flip failing with or without effect (then the priority
+rollback puts the logged images back before the undo routines delete the staged blobs). -/
+theorem C10_any_failed_commit_keeps_loadable (s0 : State) (w : WS) (fresh0 : List (UUID × UUID)) (pre : Pre s0 w fresh0)
+    (pre2 : Pre2 s0 w fresh0) (fault : Option Fault) (tid : Tid) (n : Nat)
+    (herr : (commit w n { s := s0, tid := tid, fault := fault, fresh := fresh0 }).1 = .err) :
+    ∀ lid, (s0.view lid).isSome →
+      (commit w n { s := s0, tid := tid, fault := fault, fresh := fresh0 }).2.s.view lid = s0.view lid := by
+  cases h1 : phase1 w n { s := s0, tid := tid, fault := fault, fresh := fresh0 } with
+  | error r1 => exact commit_phase1_failure_keeps_views pre fault tid n r1 h1
+  | ok p =>
+    obtain ⟨u, r1⟩ := p
+    cases h2 : phase2 w r1 with
+    | ok q =>
+      obtain ⟨u', r2⟩ := q
+      unfold commit at herr
+      simp only [h1, h2] at herr
+      cases herr
+    | error r2 => exact commit_phase2_failure_keeps_views_all pre pre2 fault tid n r1 r2 h1 h2
 
 theorem C10_premises_satisfiable : Pre Witness.s0 Witness.wSplit [(1, 9)] := Witness.pre_wSplit
 
